@@ -10,6 +10,7 @@ pub mod c09;
 pub mod c12;
 pub mod c13;
 pub mod c14;
+pub mod c15;
 pub mod c19;
 
 macro_rules! table {
@@ -39,6 +40,7 @@ table! {
     "C12" => c12::C12,
     "C13" => c13::C13,
     "C14" => c14::C14,
+    "C15" => c15::C15,
     "C19" => c19::C19,
 }
 
